@@ -81,6 +81,22 @@ theorem C04_block_repeat_witness : ¬ C04_block_repeat_statement := by
   have := h { bus := { mem := #[0xED, 0xB0, 0, 0] }, reg := { b := 0, c := 1, h := 0, l := 2, d := 0, e := 3 } } (by decide)
   revert this; decide +kernel
 
+/-- the extent of the finding, exactly: for the four repeating encodings the reported count is the constant 21 in
+    every state, and Zilog's figure is never 21 (it is 16 for one iteration and at least 37 for more), so the
+    count is wrong for every iteration count - and for nothing else (`C04_step_partial` covers every other
+    documented encoding) -/
+theorem C04_block_repeat_extent (i : Instr) (len : UInt16) (a : Arch) :
+    (tableCycles ⟨i, len, .ed, 0xB0⟩ = 21 ∧ tableCycles ⟨i, len, .ed, 0xB8⟩ = 21 ∧
+     tableCycles ⟨i, len, .ed, 0xB1⟩ = 21 ∧ tableCycles ⟨i, len, .ed, 0xB9⟩ = 21) ∧
+    extraCycles .ldir (taken .ldir a) = 0 ∧ extraCycles .lddr (taken .lddr a) = 0 ∧
+    extraCycles .cpir (taken .cpir a) = 0 ∧ extraCycles .cpdr (taken .cpdr a) = 0 ∧
+    ∀ k, 0 < k → Spec.blockTiming k ≠ 21 := by
+  have ht : ∀ op : UInt8, (cyclesED.getD op.toNat 0).toUInt32 = 21 → tableCycles ⟨i, len, .ed, op⟩ = 21 := fun _ h => h
+  refine ⟨⟨ht _ (by decide +kernel), ht _ (by decide +kernel), ht _ (by decide +kernel), ht _ (by decide +kernel)⟩, rfl, rfl, rfl, rfl, ?_⟩
+  intro k hk h
+  unfold Spec.blockTiming at h
+  omega
+
 /-- non-vacuity of the partial theorem's hypotheses: `JR Z,e` untaken is documented, non-I/O, not a block repeat -/
 example :
     let a : Arch := { bus := { mem := #[0x28, 0x05] } }
